@@ -144,6 +144,22 @@ struct Run
   }
 };
 
+// the overload WITHOUT a method argument: diff::dr<K>(f, wrt(x...))
+template<std::size_t K, class F, class... Args>
+struct RunNoMethod
+{
+  static void go(const double * x, double * f, double * J, double * H, double * after)
+  {
+    const double * p = x;
+    std::tuple<Args...> args{Get<Args>::get(p)...};
+    const auto res = std::apply([&](auto &... a) { return diff::dr<K>(F{}, wrt(a...)); }, args);
+    putm(f, std::get<0>(res));
+    if constexpr (K >= 1) { putm(J, std::get<1>(res)); }
+    if constexpr (K >= 2) { putm(H, std::get<2>(res)); }
+    std::apply([&](const auto &... a) { (puta(after, a), ...); }, args);
+  }
+};
+
 template<std::size_t K, diff::Type D, class F, class Idx, class... Args>
 struct RunSub;
 template<std::size_t K, diff::Type D, class F, std::size_t... Idx, class... Args>
